@@ -114,6 +114,7 @@ class Execution(object):
         self.s.spawn(name, body)
 
     def close(self):
+        self.s.shutdown()
         for cls, attr in self.installed:
             try:
                 delattr(cls, attr)
